@@ -48,7 +48,7 @@ def generate(tier, rng):
                 for start in gen.tree_labels(t):
                     for k in KINDS:
                         yield {"fam": "iter", "tree": t, "start": start, "kind": k, "filter_out": [],
-                               "stop": [], "maxlevel": None, "defaults": True}
+                               "stop": [], "maxlevel": None, "defaults": True, "cls": rng.choice(["nm", "light", "eq"])}
     nrand = 150 if tier == "quick" else 1500
     big = 12 if tier == "quick" else 40
     for _ in range(nrand):
@@ -58,7 +58,7 @@ def generate(tier, rng):
         for start in [t[0]] + rng.sample(labs, min(2, len(labs))):
             for k in KINDS:
                 yield {"fam": "iter", "tree": t, "start": start, "kind": k, "filter_out": [],
-                       "stop": [], "maxlevel": None, "defaults": rng.random() < 0.5}
+                       "stop": [], "maxlevel": None, "defaults": rng.random() < 0.5, "cls": rng.choice(["nm", "light", "eq"])}
 
 
 def nontrivial(case):
